@@ -52,3 +52,44 @@ pub fn drive_c07(args: &[String]) {
     sink.flush();
     println!("{}", json!({"events": sink.n}));
 }
+
+// ------------------------------------------------------------------ the generic backtracking iterator on explicit trees
+
+struct DataTree { kids: Vec<Vec<usize>>, ex: Vec<bool>, visited: std::cell::RefCell<Vec<usize>> }
+
+impl rust_dsymbols::util::backtrack::BackTracking for DataTree {
+    type State = usize;
+    type Item = usize;
+    fn root(&self) -> usize { 1 }
+    fn extract(&self, s: &usize) -> Option<usize> { if self.ex[*s - 1] { Some(*s) } else { None } }
+    fn children(&self, s: &usize) -> Vec<usize> { self.visited.borrow_mut().push(*s); self.kids[*s - 1].clone() }
+}
+
+/// spec -> impl: TLC-generated trees with the sequence BackTrack.tla says the iterator emits
+pub fn replay_backtrack(args: &[String]) {
+    use rust_dsymbols::util::backtrack::BackTrackIterator;
+    let cases = read_lines(&args[0]);
+    let mut bad: Vec<Value> = vec![];
+    let mut conf: Vec<String> = vec![];
+    let mut nontrivial = 0;
+    for c in &cases {
+        let kids: Vec<Vec<usize>> = c["kids"].as_array().unwrap().iter().map(|k| k.as_array().unwrap().iter().map(|x| x.as_u64().unwrap() as usize).collect()).collect();
+        let ex: Vec<bool> = c["ex"].as_array().unwrap().iter().map(|x| x.as_bool().unwrap()).collect();
+        let want: Vec<usize> = c["out"].as_array().unwrap().iter().map(|x| x.as_u64().unwrap() as usize).collect();
+        if kids.len() >= 3 { nontrivial += 1; }
+        let r = catch(|| {
+            let it = BackTrackIterator::new(DataTree { kids: kids.clone(), ex: ex.clone(), visited: Default::default() });
+            it.take(10 * kids.len() + 10).collect::<Vec<usize>>()
+        });
+        match r {
+            Err(m) => { if bad.len() < 5 { bad.push(json!({"panic": m, "case": c})); } }
+            Ok(got) => {
+                let (mut a, mut b) = (got.clone(), want.clone()); a.sort(); b.sort();
+                if a != b { if bad.len() < 5 { bad.push(json!({"what": "every extractable node exactly once", "got": got, "case": c})); } }
+                else if got != want { conf.push(format!("emission order {:?} differs from depth-first pre-order {:?}", got, want)); }
+            }
+        }
+    }
+    conf.truncate(5);
+    println!("{}", json!({"cases": cases.len(), "comparisons": cases.len(), "nontrivial": nontrivial, "mismatches": bad, "conformance": conf, "sample": cases.get(cases.len() / 2)}));
+}
